@@ -42,4 +42,17 @@ PROPS['C06'] = {
                    'mismatch / uncovered channel / unknown name.',
 }
 
+PROPS['C03'] = {
+    'contracts': ['contracts.transform:ToRfi', 'contracts.io:NameToIndex', 'contracts.io:AmplificationType',
+                  'contracts.io:AmplifierGain', 'contracts.io:Resolution'],
+    'bounded': True,
+    'level': 'proof',
+    'timeout_ms': 10000,
+    'explanation': 'transform.to_rfi with a symbolic number of channels (names or positions) and per-entry optional overrides: loop '
+                   'invariant over the conversion loop; each selected column carries a1*10^(a0*x/r) or x/g with override-or-file '
+                   'parameters (over the reals), all other columns and non-range metadata identical, ranges are the law of the old '
+                   'limits, input unmodified, inconsistent lengths refused.  One-call vs one-at-a-time vs any order follows from the '
+                   'per-column postcondition (columns are independent and metadata other than range is unchanged).',
+}
+
 NOT_APPLICABLE = {}
